@@ -132,9 +132,10 @@ const (
 	KMustNot
 	KFuzzy
 	KBoost
+	KGroup // field:( E ) with an arbitrary expression as the field's value
 )
 
-var kindNames = []string{"term", "field", "cmp", "range", "list", "AND", "OR", "NOT", "MUST", "MUSTNOT", "FUZZY", "BOOST"}
+var kindNames = []string{"term", "field", "cmp", "range", "list", "AND", "OR", "NOT", "MUST", "MUSTNOT", "FUZZY", "BOOST", "GROUP"}
 
 func (k Kind) String() string { return kindNames[k] }
 
@@ -184,6 +185,9 @@ func Range(field string, lo, hi Value, incl bool) *Node {
 func List(field string, vals ...Value) *Node {
 	return &Node{Kind: KList, Field: Word(field), Vals: vals}
 }
+
+// Group is field:( E ).
+func Group(field string, e *Node) *Node { return &Node{Kind: KGroup, Field: Word(field), Kids: []*Node{e}} }
 
 // And, Or, Not, Must, MustNot, Fuzzy, Boost build operator nodes.
 func And(a, b *Node) *Node  { return &Node{Kind: KAnd, Kids: []*Node{a, b}} }
@@ -333,8 +337,34 @@ func (n *Node) Expr() *expr.Expression {
 		return expr.FUZZY(n.Kids[0].Expr(), n.Dist)
 	case KBoost:
 		return expr.BOOST(n.Kids[0].Expr(), n.Power)
+	case KGroup:
+		// an OR-tree of two or more plain values is a value list, anything else is the field's value
+		if vals, ok := plainOrLeaves(n.Kids[0]); ok && len(vals) > 1 {
+			list := []*expr.Expression{}
+			for _, v := range vals {
+				list = append(list, v.Expr())
+			}
+			return expr.IN(fieldExpr(n.Field), expr.LIST(list))
+		}
+		return expr.Eq(fieldExpr(n.Field), n.Kids[0].Expr())
 	}
 	panic("qt.Expr: bad kind")
+}
+
+// plainOrLeaves returns the in-order leaves of an OR-tree whose leaves are all plain values.
+func plainOrLeaves(n *Node) ([]Value, bool) {
+	switch n.Kind {
+	case KTerm:
+		if n.Val.IsString() || n.Val.IsNum() {
+			return []Value{n.Val}, true
+		}
+		return nil, false
+	case KOr:
+		l, ok1 := plainOrLeaves(n.Kids[0])
+		r, ok2 := plainOrLeaves(n.Kids[1])
+		return append(l, r...), ok1 && ok2
+	}
+	return nil, false
 }
 
 // ---------------------------------------------------------------------------------------------
@@ -524,6 +554,8 @@ func (p *printer) bare(n *Node) string {
 			s += p.osp() + n.ArgText
 		}
 		return s
+	case KGroup:
+		return n.Field.Text + p.osp() + ":" + p.osp() + "(" + p.osp() + p.node(n.Kids[0]) + p.osp() + ")"
 	}
 	panic("qt.print: bad kind")
 }
